@@ -79,7 +79,10 @@ def render_san(nodes, path, result="1/2-1/2"):
 
 def render_pgn(nodes, path, rng, gid, style="A"):
     res = rng.choice(["1-0", "0-1", "1/2-1/2", "*"])
-    tags = ['[Event "verif %d"]' % gid, '[Site "?"]', '[Date "2026.10.01"]', '[Round "%d"]' % (gid % 7 + 1),
+    # tag values are free text: escaped quotes, brackets and result-like text are legal inside them
+    event = rng.choice(['verif %d', 'The \\"Big\\" Open %d', 'match 1-0 decided %d', 'Open [A] %d']) % gid
+    site = rng.choice(['?', 'Lon[d]on', 'Sp\\"a'])
+    tags = ['[Event "%s"]' % event, '[Site "%s"]' % site, '[Date "2026.10.01"]', '[Round "%d"]' % (gid % 7 + 1),
             '[White "Spec, T."]', '[Black "Engine; F."]' if style == "B" else '[Black "Engine, F."]', '[Result "%s"]' % res]
     toks = []
     for k in range(len(path)):
